@@ -2,7 +2,7 @@
 (***************************************************************************)
 (* Model-checking / export wrapper of SmoothMachine.                       *)
 (*   SMOOTH_GROUP  which family of the catalogue is explored               *)
-(*                 newton | bfgs | broyden | ncg | sd | adam | ls          *)
+(*                 newton | bfgs | broyden | ncg | sd | adam | ls (ls0, ls1)*)
 (*   SMOOTH_TIER   quick | thorough  (size of the catalogue)               *)
 (*   OUT_FILE      export file (one JSON line per finished behaviour)      *)
 (* The base problems (matrix, weights, minimiser, start) live in           *)
@@ -36,7 +36,8 @@ Wt(nm, n) ==
     [] nm = "a12" -> SubSeq(<<q(1, 1), q(2, 1), q(1, 1)>>, 1, n)   \* array weightings
     [] nm = "a21" -> SubSeq(<<q(2, 1), q(1, 1), q(4, 1)>>, 1, n)
 
-\* a case is <<matrix, weights, minimiser, start, tier>> ; tier 0 = quick and thorough, 1 = thorough only
+\* a case is <<matrix, weights, minimiser, 2 * start, tier (, options)>> ; tier 0 = quick and thorough, 1 = thorough only
+Halves(v) == [i \in 1..Len(v) |-> Q(v[i], 2)]
 Use(c) == Thorough \/ c[5] = 0
 QuadP(c) ==
   [kind |-> "quad", tag |-> c[1] \o "/" \o c[2], M |-> Mat(c[1]), c |-> MatVec(Mat(c[1]), RInt(c[3])),
@@ -52,7 +53,7 @@ Base == [solver |-> "", fam |-> "", P |-> <<>>, x0 |-> <<>>, N |-> 3, ls |-> LS0
          queries |-> <<>>]
 Inst(solver, fam, c) ==
   [Base EXCEPT !.solver = solver, !.fam = fam, !.P = IF c[1] \in {"quart", "lin"} THEN OtherP(c) ELSE QuadP(c),
-               !.x0 = RInt(c[4])]
+               !.x0 = Halves(c[4])]
 DimOf(c) == Len(c[4])
 H0Of(nm, n) == CASE nm = "I" -> <<>>
                  [] nm = "D" -> SubSeq(<<q(1, 2), q(1, 4), q(1, 1)>>, 1, n)      \* MultiplyOperator
@@ -76,10 +77,10 @@ BFGSCat(u_) ==
       c \in {c \in BFGSHCases : Use(c)}, h \in {"D"} }
   \cup { [Inst("bfgs", "exact-store0", c) EXCEPT !.ls = LSExact, !.store = 0] :
       c \in {c \in SDXCases : Use(c)} }
-  \cup { [Inst("bfgs", "const", c) EXCEPT !.ls = LSConst(q(1, 4)), !.store = m, !.h0 = H0Of(h, DimOf(c))] :
-      c \in {c \in BFGSCCases : Use(c)}, m \in {-1, 1}, h \in {"I", "S"} }
-  \cup { [Inst("bfgs", "bt", c) EXCEPT !.ls = BT(q(1, 2), q(1, 100))] :
-      c \in {c \in BFGSBCases : Use(c)} }
+  \cup { [Inst("bfgs", "const", c) EXCEPT !.ls = LSConst(c[6]), !.store = mh[1], !.h0 = H0Of(mh[2], DimOf(c))] :
+      c \in {c \in BFGSCCases : Use(c)}, mh \in {<<-1, "I">>, <<1, "I">>, <<-1, "S">>} }
+  \cup { [Inst("bfgs", "bt", c) EXCEPT !.ls = BT(q(1, 2), q(1, 100)), !.store = m] :
+      c \in {c \in BFGSBCases : Use(c)}, m \in {-1, 1} }
 
 \* Broyden: both updates; full steps on the linear system (finite termination within 2 dim steps), damped and exact
 BroydenCat(u_) ==
@@ -92,7 +93,7 @@ BroydenCat(u_) ==
 NCGCat(u_) ==
   { [Inst("ncg", "exact", c) EXCEPT !.ls = LSExact, !.beta = b, !.N = DimOf(c) + 1] :
       c \in {c \in CGCases : Use(c)}, b \in {"FR", "PR", "HS", "DY"} }
-  \cup { [Inst("ncg", "const", c) EXCEPT !.ls = LSConst(q(1, 8)), !.beta = c[6]] :
+  \cup { [Inst("ncg", "const", c) EXCEPT !.ls = LSConst(c[7]), !.beta = c[6]] :
       c \in {c \in NCGCCases : Use(c)} }
 
 \* steepest descent: constant steps, steps by call number, exact and backtracking line search, projection on a box
@@ -128,7 +129,7 @@ LSRules ==
 LSCat(u_) ==
   { [Inst("ls", "history", c) EXCEPT !.ls = ls, !.N = 3,
                                       !.queries = Queries(IF c[1] \in {"quart", "lin"} THEN OtherP(c) ELSE QuadP(c),
-                                                          RInt(c[4]))] :
+                                                          Halves(c[4]))] :
       c \in {c \in LSCases : Use(c)}, ls \in LSRules }
 
 MC_Catalogue ==
@@ -139,6 +140,8 @@ MC_Catalogue ==
     [] Group = "sd"      -> SDCat(0)
     [] Group = "adam"    -> AdamCat(0)
     [] Group = "ls"      -> LSCat(0)
+    [] Group = "ls0"     -> {I \in LSCat(0) : ~I.ls.est}            \* (two halves, so that two TLC processes share the work)
+    [] Group = "ls1"     -> {I \in LSCat(0) : I.ls.est}
 MC_WithSplits == TRUE
 
 (* ------------------------- export ---------------------------------------- *)
